@@ -89,7 +89,7 @@ func sfCmd(a []string) string {
 	return strings.Join(out, " ") + fmt.Sprintf(" | %d %d %s %s %s %s %d", n, inf, b01(sd), b01(es), b01(vp), b01(rp), rc)
 }
 
-// sched <smallThr> <parallel> a:<key>:<remaining> | n | r:<key>
+// sched <smallThr> <parallel> a:<key>:<remaining> | n | r:<key> | t:<ms>
 // prints, per op, "-" or the key chosen ("n:<k>" / "n:none") so that the orchestrator can hand the
 // choices to the model.
 func schedCmd(a []string) string {
@@ -116,6 +116,10 @@ func schedCmd(a []string) string {
 		case "r":
 			k, _ := strconv.ParseUint(f[1], 10, 64)
 			s.Remove(keyOf(k))
+			out = append(out, "-")
+		case "t": // the clock advances (aging looks at it)
+			ms, _ := strconv.ParseInt(f[1], 10, 64)
+			now = now.Add(time.Duration(ms) * time.Millisecond)
 			out = append(out, "-")
 		case "n":
 			key, ok := s.Next(now)
